@@ -38,7 +38,11 @@ func c17narrow(c *core.Ctx) {
 		size    int // payload size of the concurrent messages
 	}
 	var scs []scen
-	for _, roll := range []int{0, 16384 - 60, 16384 - 10} {
+	rolls := []int{0, 16384 - 10}
+	if c.Thorough() {
+		rolls = []int{0, 16384 - 60, 16384 - 10}
+	}
+	for _, roll := range rolls {
 		for _, size := range []int{1, 100} {
 			scs = append(scs, scen{2, 1, roll, size}, scen{2, 2, roll, size})
 			if c.Thorough() {
@@ -169,8 +173,15 @@ func c17narrow(c *core.Ctx) {
 			}
 			vsched.Logf("ok")
 		}
+		// one message per writer: every interleaving; more: preemption-bounded
 		bound := -1
-		st := c.RunSched(explore.SchedOpts{Name: name, Bound: bound, Cache: true, UseMark: true, Body: body, MaxExecs: 60000, FallbackBound: 3, MaxPoints: 50000, Check: schedCheck},
+		if sc.writers*sc.each > 2 {
+			bound = 2
+			if c.Thorough() {
+				bound = 3
+			}
+		}
+		st := c.RunSched(explore.SchedOpts{Name: name, Bound: bound, Cache: true, UseMark: true, Body: body, MaxExecs: 200000, FallbackBound: 3, MaxPoints: 50000, Check: schedCheck},
 			func(v *explore.Violation) string { return "C17 " + name + " :: " + violClass(v.Message) })
 		if st != nil {
 			c.Rep.Sample(map[string]interface{}{"scenario": name, "bound": st.Bound, "executions": st.Executions, "states": st.States})
@@ -193,9 +204,6 @@ func c17broker(c *core.Ctx) {
 		bound = 2
 	}
 	for _, sc := range scs {
-		if !c.Mine() {
-			continue
-		}
 		if c.Expired() || c.HasViolation() {
 			return
 		}
@@ -288,7 +296,8 @@ func c17broker(c *core.Ctx) {
 			}
 			vsched.Logf("ok")
 		}
-		st := c.RunSched(explore.SchedOpts{Name: name, Bound: bound, Cache: true, UseMark: true, Body: body, MaxPoints: 100000, Check: schedCheck},
+		// one scenario, all workers: the schedule tree is split among them
+		st := c.RunSched(explore.SchedOpts{Name: name, Bound: bound, Cache: true, UseMark: true, Body: body, MaxPoints: 100000, Check: schedCheck, Shard: c.Shard, NShards: c.NShards},
 			func(v *explore.Violation) string { return "C17 " + name + " :: " + violClass(v.Message) })
 		if st != nil {
 			c.Rep.Sample(map[string]interface{}{"scenario": name, "bound": st.Bound, "executions": st.Executions, "states": st.States})
@@ -298,7 +307,7 @@ func c17broker(c *core.Ctx) {
 
 // C17: whole packets, per-publisher order.
 func C17(c *core.Ctx) {
-	c.Rep.Bound = "SCHED: (narrow) 2-3 goroutines publishing 1-2 messages each through one service peer whose out ring was pre-rolled so that a packet wraps, all interleavings (scenarios above the execution cap: <= 3 preemptions); (broker) 2 raw publishers x 1-3 messages at QoS 0/1/2 to 2 subscribers through the real broker, all interleavings with <= 1 (quick) / 2 (thorough) preemptions after a default-schedule set-up"
+	c.Rep.Bound = "SCHED: (narrow) 2-3 goroutines publishing 1-2 messages each through one service peer whose out ring was pre-rolled so that a packet wraps, all interleavings for one message per goroutine, <= 2 (quick) / 3 (thorough) preemptions otherwise; (broker) 2 raw publishers x 1-3 messages at QoS 0/1/2 to 2 subscribers through the real broker, all interleavings with <= 1 (quick) / 2 (thorough) preemptions after a default-schedule set-up"
 	c.Rep.Rule = "oracle at quiescence: every connection's byte stream parses under the strict reference codec into whole packets, each message arrives exactly once with intact topic and payload, and the sequence numbers of each publisher arrive in order at each subscriber"
 	c17narrow(c)
 	if c.HasViolation() {
